@@ -114,6 +114,7 @@ type FuncSpec struct {
 	Pure          bool // (for extern) no heap effect at all
 	File          string
 	Line          int
+	Given         []string             // universally quantified integer parameters (see `given`)
 	InlineCallees []string             // callees executed by body in this unit
 	ExtraLoops    map[string]*LoopSpec // "callee.K" -> invariants added to loop K of an inlined callee
 	Captures      []Param              // for closures: names bound to free variables, positional
@@ -677,7 +678,7 @@ func readSpecLines(path string) ([]string, []int, error) {
 var clauseKeywords = map[string]bool{
 	"pure": true, "ghost": true, "func": true, "extern": true, "requires": true, "ensures": true,
 	"modifies": true, "loop": true, "let": true, "replay": true, "trusted": true, "lemma": true,
-	"guarded": true, "captures": true, "noeffect": true, "hint": true, "abstract": true, "callpre": true, "inlined": true, "open": true, "inline": true,
+	"guarded": true, "captures": true, "noeffect": true, "hint": true, "abstract": true, "callpre": true, "inlined": true, "open": true, "inline": true, "given": true,
 }
 
 // joinClauses merges continuation lines (lines whose first word is not a keyword).
@@ -969,6 +970,16 @@ func (db *SpecDB) LoadFile(path, pkg string) error {
 				ls.Bounded = w3 == "bounded"
 			default:
 				return fail(i, "unknown loop clause %q", w3)
+			}
+		case "given":
+			// given i0, j0: universally quantified integer parameters of this contract. Inside the unit they are
+			// arbitrary fixed integers (proving a clause for an arbitrary value proves it for all); at call sites the
+			// clauses that mention them are not used.
+			if cur == nil {
+				return fail(i, "given outside func")
+			}
+			for _, p := range strings.Split(rest, ",") {
+				cur.Given = append(cur.Given, strings.TrimSpace(p))
 			}
 		case "let":
 			if cur == nil {
